@@ -36,7 +36,7 @@ def setup_engine(E):
 def program(B):
     res = shapes.resolver(B)
     parser = B.inst("a816.parse.mzparser.MZParser", resolver=res)
-    return B.inst("a816.program.Program", resolver=res, logger=B.lift(__import__("logging").getLogger("x816")), dump_symbols=False, parser=parser)
+    return B.inst("a816.program.Program", resolver=res, logger=B.lift(__import__("logging").getLogger("x816")), dump_symbols=False, parser=parser, label_pass_addresses=B.list([]))
 
 
 def emitter(B):
